@@ -29,8 +29,9 @@ type VocabOpts struct {
 	NoEmptyInFree   bool // no empty arrays inside free-form payloads (gob K4 steering)
 	Refs            bool // allow {"$ref": ...} forms for parameter / response / path item / schema
 	NoExtensions    bool
-	ScalarItemsPct  int // (C07 only) not used by the normal form
+	ScalarItemsPct  int  // (C07 only) not used by the normal form
 	EmptySecurity   bool // allow `security: []` and empty requirement objects (C14; outside C01's normal form)
+	Budget          int  // maximum number of optional members in one instance (default 40)
 	NonNormalXOrder bool // (C06) x-order extensions on properties: ints, numeric strings, ties, floats, junk
 }
 
@@ -40,6 +41,9 @@ func (o VocabOpts) withDefaults() VocabOpts {
 	}
 	if o.OptPct == 0 {
 		o.OptPct = 30
+	}
+	if o.Budget == 0 {
+		o.Budget = 40
 	}
 	return o
 }
@@ -56,18 +60,101 @@ type V struct {
 	EmptyReq    []string // pointers of required strings drawn empty
 	Keywords    int
 	MaxDepth    int
+	budget      int // remaining optional members (bounds the size of an instance)
 }
 
-func NewV(t *rapid.T, o VocabOpts) *V { return &V{T: t, O: o.withDefaults()} }
+func NewV(t *rapid.T, o VocabOpts) *V {
+	v := &V{T: t, O: o.withDefaults()}
+	v.budget = v.O.Budget
+	return v
+}
 
 type field struct {
-	name string
-	req  bool
-	gen  func(v *V, d int) any
+	name  string
+	req   bool
+	gen   func(v *V, d int) any
+	shape string // what the value is: see shapeOf
 }
 
-func f(name string, gen func(v *V, d int) any) field  { return field{name, false, gen} }
-func rq(name string, gen func(v *V, d int) any) field { return field{name, true, gen} }
+func f(name string, gen func(v *V, d int) any) field  { return field{name, false, gen, shapeOf(name)} }
+func rq(name string, gen func(v *V, d int) any) field { return field{name, true, gen, shapeOf(name)} }
+
+// shapeOf gives the structural role of a keyword's value (the same keyword has
+// the same role in every kind, except `items`, `schema`, `responses`, `parameters`, `type` which depend on the holder and are resolved in ChildShape).
+func shapeOf(name string) string {
+	switch name {
+	case "default", "example":
+		return "free"
+	case "enum":
+		return "freelist"
+	case "examples":
+		return "mapfree"
+	case "definitions", "properties", "patternProperties":
+		return "map:schema"
+	case "dependencies":
+		return "deps"
+	case "allOf", "anyOf", "oneOf":
+		return "list:schema"
+	case "not", "schema":
+		return "kind:schema"
+	case "additionalProperties", "additionalItems":
+		return "sob"
+	case "xml":
+		return "kind:xml"
+	case "externalDocs":
+		return "kind:externalDocs"
+	case "contact":
+		return "kind:contact"
+	case "license":
+		return "kind:license"
+	case "info":
+		return "kind:info"
+	case "paths":
+		return "kind:paths"
+	case "headers":
+		return "map:header"
+	case "get", "put", "post", "delete", "options", "head", "patch":
+		return "kind:operation"
+	case "securityDefinitions":
+		return "map:securityScheme"
+	case "tags":
+		return "tags" // list of tag objects in swagger, list of strings in operation
+	case "security":
+		return "security"
+	case "scopes":
+		return "scopes"
+	}
+	return "scalar"
+}
+
+// ChildShape resolves the holder-dependent keywords.
+func ChildShape(holder, keyword string) string {
+	switch keyword {
+	case "items":
+		if holder == "schema" {
+			return "soa"
+		}
+		return "kind:items"
+	case "responses":
+		if holder == "swagger" {
+			return "map:response"
+		}
+		return "kind:responses"
+	case "parameters":
+		if holder == "swagger" {
+			return "map:parameter"
+		}
+		return "list:parameter"
+	case "tags":
+		if holder == "swagger" {
+			return "list:tag"
+		}
+		return "scalar"
+	case "definitions":
+		return "map:schema"
+	}
+	return shapeOf(keyword)
+}
 
 // ---------------------------------------------------------------------------
 // leaf generators
@@ -543,8 +630,11 @@ func (v *V) instanceFl(k, fl string, d int, only string) any {
 		if !take {
 			continue
 		}
-		if deep && !fd.req && isContainerKeyword(fd.name) && only == "" {
-			continue
+		if !fd.req && only == "" {
+			if v.budget <= 0 || (deep && isContainerKeyword(fd.name)) {
+				continue
+			}
+			v.budget--
 		}
 		val := fd.gen(v, d)
 		if fd.req && v.O.EmptyReqPct > 0 {
@@ -641,3 +731,132 @@ func Sweep() []SweepCase {
 }
 
 func (s SweepCase) String() string { return fmt.Sprintf("%s/%s/%s", s.Kind, s.Flavour, s.Keyword) }
+
+// ---------------------------------------------------------------------------
+// typed walk of an instance
+
+// WalkFn is called for every typed position of an instance: kind is the object
+// kind at path ("" for positions inside a free-form payload, whose root is
+// reported with kind "free").
+type WalkFn func(path string, kind string, value any)
+
+func escTok(s string) string {
+	s = strings.ReplaceAll(s, "~", "~0")
+	return strings.ReplaceAll(s, "/", "~1")
+}
+
+// WalkKinds visits the object kinds and free-form payload roots of an instance.
+func WalkKinds(kind string, value any, path string, fn WalkFn) {
+	fn(path, kind, value)
+	m, ok := value.(map[string]any)
+	if !ok {
+		return
+	}
+	switch kind {
+	case "free":
+		return
+	case "paths":
+		for _, k := range sortedKeysAny(m) {
+			if strings.HasPrefix(strings.ToLower(k), "x-") {
+				fn(path+"/"+escTok(k), "free", m[k])
+			} else {
+				WalkKinds("pathItem", m[k], path+"/"+escTok(k), fn)
+			}
+		}
+		return
+	case "responses":
+		for _, k := range sortedKeysAny(m) {
+			if strings.HasPrefix(strings.ToLower(k), "x-") {
+				fn(path+"/"+escTok(k), "free", m[k])
+			} else {
+				WalkKinds("response", m[k], path+"/"+escTok(k), fn)
+			}
+		}
+		return
+	}
+	known := map[string]bool{}
+	for _, k := range KeywordsOf(kind) {
+		known[k] = true
+	}
+	for _, k := range sortedKeysAny(m) {
+		p := path + "/" + escTok(k)
+		val := m[k]
+		if !known[k] {
+			// vendor extension or unknown schema keyword: a free-form payload
+			fn(p, "free", val)
+			continue
+		}
+		sh := ChildShape(kind, k)
+		switch {
+		case sh == "free":
+			fn(p, "free", val)
+		case sh == "freelist":
+			if arr, ok := val.([]any); ok {
+				for i, e := range arr {
+					fn(fmt.Sprintf("%s/%d", p, i), "free", e)
+				}
+			}
+		case sh == "mapfree":
+			if mm, ok := val.(map[string]any); ok {
+				for _, n := range sortedKeysAny(mm) {
+					fn(p+"/"+escTok(n), "free", mm[n])
+				}
+			}
+		case strings.HasPrefix(sh, "kind:"):
+			WalkKinds(sh[5:], val, p, fn)
+		case strings.HasPrefix(sh, "list:"):
+			if arr, ok := val.([]any); ok {
+				for i, e := range arr {
+					WalkKinds(sh[5:], e, fmt.Sprintf("%s/%d", p, i), fn)
+				}
+			}
+		case strings.HasPrefix(sh, "map:"):
+			if mm, ok := val.(map[string]any); ok {
+				for _, n := range sortedKeysAny(mm) {
+					WalkKinds(sh[4:], mm[n], p+"/"+escTok(n), fn)
+				}
+			}
+		case sh == "sob":
+			if _, isObj := val.(map[string]any); isObj {
+				WalkKinds("schema", val, p, fn)
+			}
+		case sh == "soa":
+			switch x := val.(type) {
+			case map[string]any:
+				WalkKinds("schema", x, p, fn)
+			case []any:
+				for i, e := range x {
+					WalkKinds("schema", e, fmt.Sprintf("%s/%d", p, i), fn)
+				}
+			}
+		case sh == "deps":
+			if mm, ok := val.(map[string]any); ok {
+				for _, n := range sortedKeysAny(mm) {
+					if _, isObj := mm[n].(map[string]any); isObj {
+						WalkKinds("schema", mm[n], p+"/"+escTok(n), fn)
+					}
+				}
+			}
+		}
+	}
+}
+
+func sortedKeysAny(m map[string]any) []string {
+	ks := make([]string, 0, len(m))
+	for k := range m {
+		ks = append(ks, k)
+	}
+	sort.Strings(ks)
+	return ks
+}
+
+// PayloadRoots lists the pointers of the free-form payloads of an instance.
+func PayloadRoots(kind string, value any) []string {
+	var out []string
+	WalkKinds(kind, value, "", func(path, k string, v any) {
+		if k == "free" {
+			out = append(out, path)
+		}
+	})
+	return out
+}
